@@ -46,6 +46,11 @@ for sc in ("Givaro::ModularBalanced", "Givaro::ModularExtended", "Givaro::Montgo
 ring_scope("Givaro::GF2", "RING", ["Element"], skip=("reduce",))
 ring_scope("Givaro::GFqDom", "GFQ", ["Rep"], byvalue=tuple(RING_SHAPES), skip=("reduce",))        # Rep operands are passed by value
 put("Givaro::GFqDom", "reduce", "DV:Rep", "!the operand is passed by value (an integer): cannot alias; a one-line table look-up")
+for nm, sh, op in (("assign", "xDC", "assign"), ("mul", "xDCC", "mul"), ("mul", "xDCx", "mul.s"), ("div", "xDCC", "div"), ("div", "xDCx", "div.s"),
+                   ("add", "xDCC", "add"), ("add", "xDCx", "add.s"), ("sub", "xDCC", "sub"), ("sub", "xDCx", "sub.s"), ("neg", "xDC", "neg"), ("inv", "xDC", "inv"),
+                   ("axpy", "xDxCC", "axpy"), ("axpy", "xDxCx", "axpy.c"), ("axpyin", "xDxC", "axpyin"), ("axmy", "xDxCC", "axmy"), ("axmy", "xDxCx", "axmy.c"),
+                   ("maxpyin", "xDxC", "maxpyin")):
+    put("Givaro::GFqDom", nm, sh + ":Array", "GFQA:" + op)      # array forms op(sz, r, a, b): the arrays may be the same array
 ring_scope("Givaro::Extension", "EXT", ["Extension::PolElement"], byvalue=("maxpy", "maxpyin", "axmy", "axmyin"), skip=("reduce",))
 for nm in ("random", "nonzerorandom"):
     put("Givaro::Extension", nm, "xDC:Element", "!random output (the const operand is a size hint)")
@@ -234,12 +239,20 @@ OUTSIDE = {
     "Givaro::QuotientDom": "quotient of a polynomial domain (givquotientdomain.h): one-line forwards to Poly1Dom operations followed by modin, as Extension",
     "Givaro::VectorDom": "vector domain (givvector.h): element-wise loops over std::vector; not one of the named interfaces",
     "Givaro::HighOrder": "high-order lifting (givhighorder.h): algorithms on truncated series with fixed locals",
-    "Givaro::IntNumTheoDom": "number-theoretic functions (phi, lambda, order, primitive roots): outputs are computed from scratch in locals and assigned last",
-    "Givaro::IntSqrtModDom": "modular square roots: randomised algorithms, outputs assigned last",
     "Givaro::IntFactorDom": "integer factorisation: randomised algorithms, outputs assigned last",
     "Givaro::Poly1FactorDom": "polynomial factorisation: randomised algorithms",
 }
-OUTSIDE_FREE = {("Givaro", "Brillhart"): "IntSqrtModDom", ("Givaro", "Lenstra"): "IntFactorDom", ("Givaro", "Pollard"): "IntFactorDom",
+for _nm, _sh in (("lambda", "DC"), ("lambda_inv", "DC"), ("lambda_inv_primpow", "DCx"), ("lambda_primpow", "DCx"), ("lowest_prim_root", "DC"), ("order", "DCC"),
+                 ("phi", "DC"), ("prim_elem", "DC"), ("prim_inv", "DC"), ("prim_root", "DC"), ("prim_root_of_prime", "DC"), ("probable_prim_root", "DxCx")):
+    put("Givaro::IntNumTheoDom", _nm, _sh + ":Rep", "NT:" + _nm)
+put("Givaro::IntNumTheoDom", "prim_root", "DxC:Rep", "NT:prim_root.w")
+put("Givaro::IntNumTheoDom", "phi", "DxC:Rep", "~NT:phi the form taking the factor list: the body of phi(r, n)")
+put("Givaro::IntNumTheoDom", "prim_root_of_prime", "DxCC:Rep", "~NT:prim_root_of_prime the form taking the factor list: the body of prim_root_of_prime(r, p)")
+for _nm, _sh in (("Brillhart", "DDC"), ("sqrootmod", "DCC"), ("sqrootmodpoweroftwo", "DCxC"), ("sqrootmodprime", "DCC"), ("sqrootmodprimepower", "DCCxC"),
+                 ("sumofsquaresmodprime", "DDCC"), ("sumofsquaresmodprimeDeterministic", "DDCC"), ("sumofsquaresmodprimeMonteCarlo", "DDCC"),
+                 ("sumofsquaresmodprimeNoERH", "DDCC"), ("sumofsquaresmodprimewithnonresidue", "DDCCC")):
+    put("Givaro::IntSqrtModDom", _nm, _sh + ":Rep", "NT:" + _nm)
+OUTSIDE_FREE = {("Givaro", "Lenstra"): "IntFactorDom", ("Givaro", "Pollard"): "IntFactorDom",
                 ("Givaro", "SplitFactor"): "Poly1FactorDom"}
 
 
